@@ -3,7 +3,7 @@ import math
 import random
 from fractions import Fraction as Fr
 
-from . import core, si, sysgen, engine_build
+from . import core, si, sysgen, engine_build, child
 from .core import g_float, g_list, g_nat, g_bool, g_z
 
 IMPORTS = "Grid Coarse AcceptC05 AcceptC16"
@@ -73,7 +73,9 @@ def make_case(rng, tier):
     G = max(im) + 1 if im and max(im) >= 0 else 0
     sample = [rng.choice([0.0, 1.0, 3.0, 4.5, 10.0]) for _ in range(ns * int(G))]
     return {"w": w, "h": h, "d": d, "env": env, "nenv": nenv, "edge": edge, "im": im, "ns": ns, "state": state, "chs": chs, "sample": sample,
-            "fault": fault, "kind": kind, "units": sysgen.rand_sys(rng)}
+            "fault": fault, "kind": kind, "units": sysgen.rand_sys(rng),
+            # the state may be stated in another amount unit than the system's, and the system's units need not be the grid's
+            "state_units": sysgen.rand_sys(rng) if rng.random() < 0.5 else None, "sys_units": sysgen.rand_sys(rng) if rng.random() < 0.5 else None}
 
 
 def observe(c):
@@ -87,7 +89,10 @@ def observe(c):
     grid = strengths.RDGridSpace(w=c["w"], h=c["h"], d=c["d"], cell_env=list(c["env"]), cell_vol=U.UnitValue(c["edge"] ** 3, U.Units(us, U.UnitsDimensions(space=3))),
                                  units_system=us)
     state = U.UnitArray(list(c["state"]), U.Units(us, U.UnitsDimensions(quantity=1)))
-    system = strengths.RDSystem(network=net, space=grid, state=state, chemostats=[int(b) for b in c["chs"]], units_system=us)
+    if c.get("state_units"):
+        state = state.convert(sysgen.py_sys(U, c["state_units"]))       # same amounts, other numbers
+    system = strengths.RDSystem(network=net, space=grid, state=state, chemostats=[int(b) for b in c["chs"]],
+                                units_system=sysgen.py_sys(U, c["sys_units"]) if c.get("sys_units") else us)
     try:
         cgs = cg.coarsegrain_system(system, list(c["im"]))
     except Exception as e:
@@ -182,11 +187,10 @@ def build_items(cases, run=None):
     core.use_repo()
     engine_build.build(False)
     items = []
-    for c in cases:
-        try:
-            o = observe(c)
-        except Exception as e:
-            o = {"accepted": False, "why": "harness: %s: %s" % (type(e).__name__, str(e)[:120])}
+    obs = child.map_children("c16", "observe", cases, timeout=120)      # a crash or hang of the engine is an observation
+    for c, o in zip(cases, obs):
+        if "timeout" in o or "crash" in o or "error" in o:
+            o = {"accepted": False, "why": "harness: %s" % (o.get("error") or ("timeout" if "timeout" in o else "crash"))}
         gc, go = emit(c, o)
         items.append({"case": c, "obs": o, "gcase": gc, "gobs": go, "nontrivial": o["accepted"]})
     return items
